@@ -272,6 +272,30 @@ func c07() []*Ob {
 		{Prop: "C07", ID: "C07.8", Engine: "ALIAS", Floor: 1,
 			Desc:  "sealing does not leave the next sealing a pointer into a fraction that is being read: nothing stored into the PreloadedData of a freshly sealed fraction aliases a table of the pooled docBlocksWriter (shared rule with C03.4; the next Seal rewrites that memory while fetches of the earlier fraction read it)",
 			Check: func(c *Ctx) { pooledTablesNotKept(c) }},
+		{Prop: "C07", ID: "C07.9", Engine: "ORDER(publish/snapshot)", Floor: 2,
+			Desc: "a token is looked up only in a dictionary that already has it: TokenList.Append publishes a new token's value (tidToVal, in createTIDs) before it lists the token under its field (FieldTIDs, in fillFieldTIDs), and getTokenProvider reads in the opposite order — the field's tids first, the tidToVal snapshot afterwards — so every tid it iterates is inside the snapshot; with the two reads swapped a token published in between is beyond the snapshot and the pattern scan panics with an index out of range (every access is under its lock: the race detector sees nothing)",
+			Check: func(c *Ctx) {
+				if w := c.Fn("(*frac.TokenList).Append"); w != nil {
+					// the publication runs in a loop over the new tokens (possibly none): the event is "the step that publishes", i.e. the
+					// store itself or the call of the helper that contains it
+					st := FieldStore("frac.TokenList", "tidToVal")
+					publishes := func(in ssa.Instruction) bool {
+						if st(in) {
+							return true
+						}
+						cl, ok := in.(ssa.CallInstruction)
+						if !ok {
+							return false
+						}
+						h := StaticCallee(cl)
+						return h != nil && c.P.InRepo(h) && c.P.Has(h, st)
+					}
+					PrecedeI(c, w, publishes, "the token values are published (tidToVal)", FieldLoad("frac.TokenList", "FieldTIDs"), "the tokens are listed under their fields (FieldTIDs)")
+				}
+				if r := c.Fn("(*frac.TokenList).getTokenProvider"); r != nil {
+					PrecedeI(c, r, FieldLoad("frac.TokenList", "FieldTIDs"), "the field's tids are read (FieldTIDs)", FieldLoad("frac.TokenList", "tidToVal"), "the tidToVal snapshot")
+				}
+			}},
 		{Prop: "C07", ID: "C07.4", Engine: "ORDER+PROV", Floor: 3,
 			Desc: "readers: activeDataProvider.Search clamps params.From/To with the fraction's published From/To before the index search; getIDsIndex materialises the _all_ postings before it takes the mids/rids snapshots and sizes the inverser from the mids snapshot; TokenLIDs.GetLIDs takes the queued LIDs before the mids/rids snapshots it sorts and merges them with (the indexer appends ids first and queues LIDs afterwards, so only this order guarantees every queued LID is inside the snapshot); inverseLIDs keeps only LIDs the inverser knows",
 			Check: func(c *Ctx) {
